@@ -9,12 +9,12 @@ OUT=/tmp/selftest-results.$$
 for f in $(ls selftest/C*.patch | sort -V); do
   P=$(basename $f | sed -E 's/^(C[0-9]+).*/\1/')
   if [ -n "$PROPS" ] && ! echo " $PROPS " | grep -q " $P "; then continue; fi
-  R=$(scripts/mutant_run.sh -w selftest $f $P 2>&1 | tail -1 | cut -c1-260)
-  R1=$(VERIF_SKIP_WITNESSES=1 scripts/mutant_run.sh -w selftest $f $P 2>&1 | tail -1 | sed -E 's/^(C[0-9]+ exit=[0-9]+).*/\1/')
-  echo "| $(basename $f) | $(echo "$R" | sed -E 's/^C[0-9]+ exit=([0-9]+).*/\1/') | $(echo "$R1" | sed -E 's/^C[0-9]+ exit=([0-9]+).*/\1/') | $(echo "$R" | sed -E 's/^C[0-9]+ exit=[0-9]+ *//' | tr '|' '/' | cut -c1-160) |" | tee -a $OUT
+  # search only (committed witnesses are not replayed): the harder of the two modes - with the witnesses the tier can only catch more
+  R=$(VERIF_SKIP_WITNESSES=1 scripts/mutant_run.sh -w selftest $f $P 2>&1 | tail -1 | cut -c1-260)
+  echo "| $(basename $f) | $(echo "$R" | sed -E 's/^C[0-9]+ exit=([0-9]+).*/\1/') | $(echo "$R" | sed -E 's/^C[0-9]+ exit=[0-9]+ *//' | tr '|' '/' | cut -c1-160) |" | tee -a $OUT
 done
 if [ -z "$PROPS" ]; then
-  { echo "| patch | exit (quick tier) | exit (search only, committed witnesses not replayed) | first failure |"; echo "|---|---|---|---|"; cat $OUT; } > selftest/RESULTS.md
+  { echo "| patch | exit (quick tier, search only: committed witnesses not replayed) | first failure |"; echo "|---|---|---|"; cat $OUT; } > selftest/RESULTS.md
 fi
 rm -f $OUT
 git -C /repo worktree remove --force /tmp/ws-selftest/repo 2>/dev/null; rm -rf /tmp/ws-selftest
